@@ -62,6 +62,17 @@ func runC08(c *sim.Ctx) *sim.Violation {
 		fm = nil
 		c.Count("probe.non-minimal-multi-byte-remaining-length")
 	}
+	mega := false
+	if t.Bool(1, 300) {
+		// a multi-megabyte PUBLISH: cuts at the seams of chunked readers
+		n := (1 + t.Int(5)) << 20
+		n += []int{0, 0, 1, -1, 4099}[t.Int(5)]
+		g := gen.NewG(t, c.Thorough, 0)
+		a := &ref.AP{Type: ref.Publish, Topic: []byte("big"), Payload: g.Bin(n)}
+		frame, fm = ref.Encode(a)
+		mega = true
+		c.Count("probe.multi-megabyte-frame")
+	}
 	L := len(frame)
 	h := hdrLen(frame)
 	typ := typeName(frame[0] >> 4)
@@ -105,6 +116,25 @@ func runC08(c *sim.Ctx) *sim.Violation {
 			}
 		}
 	}
+	if mega {
+		// offsets at multiples of 64 KiB counted from the start of the body and
+		// from the start of the frame, and their neighbours
+		ks = ks[:0]
+		for m := 65536; m < L; m *= 2 {
+			ks = append(ks, h+m, m, h+m-1, h+m+1)
+		}
+		for m := 1 << 20; m < L; m += 1 << 20 {
+			ks = append(ks, h+m, m, h+m+1)
+		}
+		ks = append(ks, L-1, h, 1)
+		var ok []int
+		for _, k := range ks {
+			if k >= 0 && k < L {
+				ok = append(ok, k)
+			}
+		}
+		ks = ok
+	}
 	// thorough, small frames: every k x {EOF,E} x {error after, error with the last bytes}
 	allCombos := c.Thorough && L <= 300
 	if allCombos {
@@ -120,6 +150,9 @@ func runC08(c *sim.Ctx) *sim.Violation {
 		withData := t.Bool(1, 2)
 		if allCombos {
 			kind, withData = ki%2, (ki/2)%2 == 1
+		}
+		if mega {
+			kind, withData = ki%2, (ki/2)%2 == 0
 		}
 		var E error = io.EOF
 		kindName := "EOF"
